@@ -291,6 +291,7 @@ type c09case struct {
 	XOff   int     `json:"xoff"` // offset within that member (clamped)
 	Trans  int     `json:"trans"`
 	SeekK  int     `json:"seekk"` // index of the failing Seek call of the double (-1 none)
+	SeekN  int     `json:"seekn"` // how many consecutive Seek calls fail (0: one; <0: until op 3)
 	Ops    [][]int `json:"ops"`
 	Seeker bool    `json:"seeker"`
 }
@@ -435,6 +436,9 @@ type c09R struct {
 	trans  int   // number of failing calls before the source recovers; 0 = forever
 	fails  int
 	seekK  int
+	seekN  int  // number of consecutive failing Seek calls from seekK on (0: one; <0: until recovered)
+	sfails int
+	recov  bool // the seeker works again
 	seeks  int
 	reads  int
 	holdAt bool
@@ -470,8 +474,15 @@ type c09RS struct{ *c09R }
 func (r c09RS) Seek(off int64, whence int) (int64, error) {
 	i := r.seeks
 	r.seeks++
-	if r.seekK >= 0 && i == r.seekK {
-		return 0, c09Fault
+	if r.seekK >= 0 && i >= r.seekK && !r.recov {
+		n := r.seekN
+		if n == 0 {
+			n = 1
+		}
+		if n < 0 || i < r.seekK+n {
+			r.sfails++
+			return 0, c09Fault
+		}
 	}
 	np := off
 	switch whence {
@@ -524,7 +535,7 @@ func c09reader(c c09case) interface{} {
 		x = int64(offs[c.XM] + o)
 	}
 	ctl := c09newctl(false)
-	src := &c09R{ctl: ctl, data: file, x: x, trans: c.Trans, seekK: c.SeekK}
+	src := &c09R{ctl: ctl, data: file, x: x, trans: c.Trans, seekK: c.SeekK, seekN: c.SeekN}
 	var rd io.Reader = src
 	if c.Seeker {
 		rd = c09RS{src}
@@ -571,6 +582,12 @@ func c09reader(c c09case) interface{} {
 				f = func() c09res { cl, msg := c09class(bg.Seek(o)); return c09res{Cls: cl, Msg: msg} }
 			case 2:
 				f = func() c09res { cl, msg := c09class(bg.Close()); return c09res{Cls: cl, Msg: msg} }
+			case 3:
+				// not an API call: the underlying seeker recovers (between calls, everything parked)
+				ctl.settle(false)
+				src.recov = true
+				res = append(res, c09res{})
+				continue
 			default:
 				return map[string]interface{}{"bad_case": "op"}
 			}
@@ -598,6 +615,7 @@ func c09reader(c c09case) interface{} {
 	out["reads"] = src.reads
 	out["seeks"] = src.seeks
 	out["fails"] = src.fails
+	out["sfails"] = src.sfails
 	return out
 }
 
